@@ -5,6 +5,7 @@ package mstore
 
 import (
 	"bytes"
+	"context"
 	"errors"
 	"fmt"
 	"regexp"
@@ -44,6 +45,7 @@ type Op struct {
 	LabelOK  bool       `json:"label_ok"`
 	RemoteOK bool       `json:"remote_ok"`
 	Batch    []BatchMsg `json:"batch,omitempty"`
+	Names    []string   `json:"names,omitempty"` // statecreate: mailboxes announced through connector.IMAPStateWrite.CreateMailbox
 	Sess     int        `json:"sess,omitempty"`
 }
 
@@ -74,6 +76,12 @@ func (o Op) String() string {
 		return fmt.Sprintf("rename(%s,%s)", o.Name, o.Name2)
 	case "conncreate":
 		return fmt.Sprintf("conncreate(%s)", o.Name)
+	case "connrestate":
+		return fmt.Sprintf("connrestate(%s)", o.Name)
+	case "statecreate":
+		return fmt.Sprintf("statecreate(%s)", strings.Join(o.Names, "+"))
+	case "connremsg":
+		return "connremsg(last batch again)"
 	case "connmsgs":
 		var p []string
 		for _, b := range o.Batch {
@@ -91,6 +99,8 @@ type Obs struct {
 	UIDV  int      `json:"uidv,omitempty"` // UIDVALIDITY announced with APPENDUID/COPYUID
 	// SetLens: number of UIDs in the source and destination set of COPYUID (they must be equal)
 	SetLens [2]int `json:"set_lens,omitempty"`
+	// ModelOps: what the operation is for the model (nil: itself; empty: nothing - it restates what exists)
+	ModelOps []Op `json:"-"`
 }
 
 type Row struct {
@@ -284,7 +294,8 @@ type World struct {
 	Gen         *imap.EpochUIDValidityGenerator
 	G0          int // last value generated by the harness before the current incarnation started
 	Epoch       time.Time
-	Injected    bool // a remote failure was injected at least once
+	Injected    bool                   // a remote failure was injected at least once
+	lastBatch   []*imap.MessageCreated // the connector batch applied last (connremsg announces it again)
 	Incarnation int
 }
 
@@ -498,6 +509,12 @@ func limitClass(err error) string {
 // Do executes one operation and returns what the issuing client / connector observed.
 func (w *World) Do(o Op) (Obs, error) {
 	defer w.Conn.ClearFailNext()
+	switch o.Kind {
+	case "copy", "move", "expunge", "delete", "rename", "restart":
+		// the messages of the last connector batch may no longer be where the batch put them: announcing the batch again
+		// would not be a restatement any more
+		w.lastBatch = nil
+	}
 	c := w.Sess[o.Sess%len(w.Sess)]
 	fail := func(call string) {
 		w.Injected = true
@@ -652,7 +669,60 @@ func (w *World) Do(o Op) (Obs, error) {
 		if !acked {
 			return Obs{}, fmt.Errorf("%s: no acknowledgement", o)
 		}
+		if err == nil {
+			w.lastBatch = ms
+		}
 		return Obs{Class: limitClass(err), Text: fmt.Sprint(err)}, nil
+	case "connremsg":
+		// the connector announces the messages of its last batch once more (same remote IDs, same mailboxes)
+		if len(w.lastBatch) == 0 {
+			return Obs{Class: "ok", ModelOps: []Op{}}, nil
+		}
+		err, acked := w.Conn.Push(imap.NewMessagesCreated(false, w.lastBatch...), 60*time.Second)
+		if !acked {
+			return Obs{}, fmt.Errorf("%s: no acknowledgement", o)
+		}
+		return Obs{Class: limitClass(err), Text: fmt.Sprint(err), ModelOps: []Op{}}, nil
+	case "connrestate":
+		// the connector announces a mailbox gluon already knows (same remote ID)
+		id, ok := w.mboxID(o.Name)
+		if !ok {
+			return Obs{}, fmt.Errorf("%s: no such remote mailbox", o)
+		}
+		err, acked := w.Conn.Push(imap.NewMailboxCreated(w.Conn.MailboxObj(id)), 60*time.Second)
+		if !acked {
+			return Obs{}, fmt.Errorf("%s: no acknowledgement", o)
+		}
+		return Obs{Class: limitClass(err), Text: fmt.Sprint(err), ModelOps: []Op{}}, nil
+	case "statecreate":
+		// the connector synchronises mailboxes through connector.IMAPState.Write / IMAPStateWrite.CreateMailbox
+		var boxes []imap.Mailbox
+		var fresh []imap.MailboxID
+		model := []Op{}
+		for _, n := range o.Names {
+			id, ok := w.mboxID(n)
+			if !ok {
+				id = w.Conn.NewMailboxID()
+				w.Conn.PutMailbox(id, strings.Split(n, "/"))
+				fresh = append(fresh, id)
+				model = append(model, Op{Kind: "conncreate", Name: n})
+			}
+			boxes = append(boxes, w.Conn.MailboxObj(id))
+		}
+		err := w.Conn.StateWrite(context.Background(), func(ctx context.Context, sw connector.IMAPStateWrite) error {
+			for _, b := range boxes {
+				if err := sw.CreateMailbox(ctx, b); err != nil {
+					return err
+				}
+			}
+			return nil
+		})
+		if err != nil {
+			for _, id := range fresh {
+				w.Conn.DropMailbox(id)
+			}
+		}
+		return Obs{Class: limitClass(err), Text: fmt.Sprint(err), ModelOps: model}, nil
 	case "connbump":
 		err, acked := w.Conn.Push(imap.NewUIDValidityBumped(), 60*time.Second)
 		if !acked {
